@@ -524,7 +524,98 @@ def g6(prog, ctx):
     ctx.floor("G6", "guard atoms above the extended-annotation build / dump", n, 4)
 
 
+def g7(prog, ctx):
+    """A gene record appears once per file: the printer's registry of printed gene ids only grows while the printer lives, and a gene
+    line is written only for an id that is not yet in it and is registered in the same branch."""
+    gp = prog.cls(TP, "GFFPrinter")
+    meths = prog.methods_of(gp, inherited=False)
+    regs = set()
+    init = meths.get("__init__")
+    for st in (walk_no_nested(init) if init is not None else ()):
+        if isinstance(st, ast.Assign) and len(st.targets) == 1 and (dotted(st.targets[0]) or "").startswith("self.") \
+                and isinstance(st.value, ast.Call) and call_name(st.value) == "set" and "gene" in dotted(st.targets[0]):
+            regs.add(dotted(st.targets[0]))
+    if len(regs) != 1:
+        raise AnalysisError("GFFPrinter.__init__: registry of printed gene ids not found (%s)" % sorted(regs))
+    reg = next(iter(regs))
+    n = 0
+    for name, f in sorted(meths.items()):
+        for node in walk_no_nested(f):
+            shrink = None
+            if isinstance(node, ast.Call) and isinstance(node.func, ast.Attribute) and dotted(node.func.value) == reg \
+                    and node.func.attr in ("clear", "remove", "discard", "pop", "difference_update", "intersection_update"):
+                shrink = node
+            if isinstance(node, ast.Assign) and any(dotted(t) == reg for t in node.targets) and name != "__init__":
+                shrink = node
+            if shrink is not None:
+                n += 1
+                ctx.fail("G7", shrink, "GFFPrinter." + name, src(shrink)[:80], "%s is emptied / rebound while the printer is in use: dump() is called "
+                         "once per group of reads, so a gene that receives transcripts from two groups gets its gene record written twice" % reg)
+    adds = [c for f in meths.values() for c in walk_no_nested(f) if isinstance(c, ast.Call) and isinstance(c.func, ast.Attribute)
+            and dotted(c.func.value) == reg and c.func.attr == "add"]
+    for c in adds:
+        n += 1
+        f = enclosing_function(c)
+        facts = flow.guard_facts(enclosing_stmt(c), stop=f)
+        key = src(c.args[0]) if c.args else "?"
+        ok = any(isinstance(t, ast.Compare) and len(t.ops) == 1 and src(t.left) == key and src(t.comparators[0]) == reg
+                 and ((isinstance(t.ops[0], ast.NotIn) and pol) or (isinstance(t.ops[0], ast.In) and not pol)) for t, pol in facts)
+        if ok:
+            ctx.ok("G7", "%s:%d" % (TP, c.lineno), "gene id registered in %s under `not in %s`; the registry is never emptied" % (reg, reg))
+        else:
+            ctx.fail("G7", c, f._qualname, src(c), "a gene id is registered as printed outside a `%s not in %s` test" % (key, reg))
+    ctx.floor("G7", "registrations of printed gene ids", len(adds), 1)
+
+
+def g8(prog, ctx):
+    """Merging genes deletes the records of one of the two genes; transcripts of the deleted gene are re-attributed to the survivor.  A
+    reference gene must never be the deleted one (its transcripts would leave their reference gene): at every call of merge_genes the
+    argument bound to the deleted parameter is known - by the enclosing tests or a preceding assert - not to be a key of the
+    annotation's gene table."""
+    from ..engine.argswap import bind_args
+    cls = prog.cls(GMC, "TranscriptToGeneJoiner")
+    meths = prog.methods_of(cls, inherited=False)
+    mg = meths.get("merge_genes")
+    if mg is None:
+        ctx.undecided("G8", cls, "TranscriptToGeneJoiner", "merge_genes not found")
+        return
+    params = [a.arg for a in mg.args.args if a.arg != "self"]
+    deleted = {src(d.slice) for st in walk_no_nested(mg) if isinstance(st, ast.Delete) for d in st.targets
+               if isinstance(d, ast.Subscript) and (dotted(d.value) or "").startswith("self.")}
+    deleted &= set(params)
+    if len(deleted) != 1:
+        ctx.undecided("G8", mg, "TranscriptToGeneJoiner.merge_genes", "no single parameter whose records are deleted (%s)" % sorted(deleted))
+        return
+    dead = next(iter(deleted))
+    n = 0
+    for name, f in sorted(meths.items()):
+        for c in walk_no_nested(f):
+            if not (isinstance(c, ast.Call) and call_name(c) == "self.merge_genes"):
+                continue
+            n += 1
+            arg = bind_args(c, mg).get(dead)
+            if arg is None:
+                ctx.undecided("G8", c, "TranscriptToGeneJoiner." + name, "argument for `%s` not found in %s" % (dead, src(c)))
+                continue
+            key = src(arg)
+            facts = flow.guard_facts(enclosing_stmt(c), stop=f)
+            ok = any(isinstance(t, ast.Compare) and len(t.ops) == 1 and src(t.left) == key
+                     and src(t.comparators[0]).endswith("gene_info.gene_strands")
+                     and ((isinstance(t.ops[0], ast.NotIn) and pol) or (isinstance(t.ops[0], ast.In) and not pol)) for t, pol in facts)
+            if ok:
+                ctx.ok("G8", "%s:%d" % (GMC, c.lineno), "merge_genes deletes %s, known not to be an annotated gene" % key)
+            else:
+                ctx.fail("G8", c, "TranscriptToGeneJoiner." + name, src(c)[:80],
+                         "merge_genes deletes the records of its parameter `%s`; here that is %s, which is not known (test or assert on "
+                         "gene_info.gene_strands) to be a novel gene: an annotated gene can be merged away and its transcripts are then "
+                         "reported under another gene id" % (dead, key))
+    ctx.floor("G8", "merge_genes call sites", n, 2)
+
+
 def run(prog, ctx):
+    ctx.rule("G8", "at every call of TranscriptToGeneJoiner.merge_genes the argument whose records the callee deletes is known (enclosing test "
+                   "or preceding assert) not to be a key of gene_info.gene_strands - an annotated gene is never the one merged away")
+    g8(prog, ctx)
     ctx.rule("G5", "every creation of a reference transcript model is followed by registering its id in detected_known_isoforms in the "
                    "same block and is protected by `id not in registry` - as a dominating guard, or because the table its id ranges over is "
                    "filled only under that test; the registry is reset per chromosome task only")
@@ -538,6 +629,9 @@ def run(prog, ctx):
                    "every non-known dumped model unfiltered")
     ctx.rule("G3", "every in-place mutation of a model's exon_blocks / strand is control-dependent, locally or at every call site, on "
                    "transcript_type != known (reference models alias the annotation's lists)")
+    ctx.rule("G7", "the GFFPrinter's registry of printed gene ids is created in __init__, only ever added to (under `id not in registry`), and never "
+                   "cleared, shrunk or rebound by another method")
+    g7(prog, ctx)
     ctx.rule("G6", "in construct_models_in_parallel every guard above create_extended_storage(...) and above the dump of its result depends on "
                    "the function's parameters / run options only (single-definition locals resolved; nothing that is appended to while the "
                    "chromosome is processed)")
